@@ -212,7 +212,8 @@ def join_inv(a, b):
     d = [None if a['d'][0] is INF or b['d'][0] is INF else min(a['d'][0], b['d'][0]),
          None if a['d'][1] is INF or b['d'][1] is INF else max(a['d'][1], b['d'][1])]
     eq = {l: e for l, e in a['eq'].items() if b['eq'].get(l) == e}
-    return {'S': S, 'd': d, 'eq': eq}
+    acc = {l: v for l, v in a.get('acc', {}).items() if b.get('acc', {}).get(l) == v}
+    return {'S': S, 'd': d, 'eq': eq, 'acc': acc}
 
 
 # ---------------------------------------------------------------------------------------------- semantics on interval products
@@ -634,6 +635,7 @@ class Scanner:
         p = summarize(b, blks, end, env0)
         self.nseg += 1
         self.cur_frame = frame
+        self.cur_h = h
         root, c = frame
         if h == 0 and root[0] == 'init':
             # entry: the buffer local is not yet initialised; the scan starts at the beginning of whatever it is bound to
@@ -823,7 +825,31 @@ class Scanner:
                     us = [x for x in walk(v) if isinstance(x, tuple) and x and x[0] == 'U']
                     if us and all(u[1] - k >= 0 for u in us) and pure_unit_expr(v):
                         eq[l] = strip_sites(shift_u(v, k))
-            new = {'S': ns.S, 'd': ns.d, 'eq': eq}
+            acc = {}
+            try:
+                troot = tf[0]
+                if troot[0] == 'init':
+                    r2_, off_root = slice_pos(self.expand(env_eval(troot[1])))
+                    r2_ = self.expand(r2_)
+                else:
+                    r2_, off_root = troot, ({}, 0)
+                if r2_ == base[0] or h == 0:
+                    A_end = lin_add(({} if h == 0 else {('A0',): 1}, 0), off_root)
+                    for l in range(b.arg_count + 1, len(b.locals)):
+                        if b.locals[l]['ty'] != 'usize' or not (l in p.env or l in inv.get('acc', {})):
+                            continue
+                        if len(b.defs.get(l, [])) < 2:
+                            continue
+                        try:
+                            v_ = self.abs_lin(env_eval(l), h, inv)
+                        except Exception:
+                            continue
+                        dl = lin_const(lin_add(v_, A_end, -1))
+                        if dl is not None:
+                            acc[l] = dl
+            except Exception:
+                acc = {}
+            new = {'S': ns.S, 'd': ns.d, 'eq': eq, 'acc': acc}
             old = self.inv.get(tgt)
             j = join_inv(old, new)
             if old is None or j != old:
@@ -837,6 +863,21 @@ class Scanner:
                 self.returns_decided += 1
             else:
                 self.problem('a feasible return path from bb%d produced no verdict obligation (path %s)' % (h, blks[:10]))
+
+    def abs_lin(self, val, h, inv):
+        """linear form of a usize expression with loop-carried accumulators replaced by (absolute position of the buffer root at the
+        start of this segment) + their invariant offset"""
+        l = lin(self.expand(val))
+        out = dict(l[0])
+        const = l[1]
+        A0 = {} if h == 0 else {('A0',): 1}
+        for atom in list(out):
+            if atom[0] == 'init' and atom[1] in inv.get('acc', {}):
+                c = out.pop(atom)
+                for t_, v_ in A0.items():
+                    out[t_] = out.get(t_, 0) + c * v_
+                const += c * inv['acc'][atom[1]]
+        return {t_: v_ for t_, v_ in out.items() if v_ != 0}, const
 
     def path_sig(self, st, k):
         return ','.join('%d:%r' % (j, st.get(j)) for j in range(k))
@@ -957,6 +998,7 @@ class Scanner:
                 clear = True
             elif vn == 'Some':
                 clear = False
+                self.some_payload = rv[2][0] if rv[0] == 'agg' and rv[2] else None
             else:
                 self.ob('%s:return-shape@bb%d' % (b.name, site_bb), False, 'verdict is neither None nor Some(..)', site_bb)
                 return
@@ -1000,6 +1042,19 @@ class Scanner:
                         'the all-clear verdict is returned although the path does not prove that the end of the buffer was reached '
                         '(distance to end in [%s, %s], %d unit(s) accepted on this path)' % (lo, hi, st.done), site_bb, {'d': [lo, hi], 'path': blks[:14]})
                 return
+        if clear is False and kind == 'option_some_stops' and getattr(self, 'some_payload', None) is not None:
+            # the reported index must be the absolute position of the stop (the buffer may have been re-sliced on the way)
+            try:
+                inv_ = self.inv.get(self.cur_h) or {}
+                val = self.abs_lin(self.some_payload, self.cur_h, inv_)
+                stop = lin_add(lin_add(({} if self.cur_h == 0 else {('A0',): 1}, 0), base[1]), ({}, pos_k))
+                diff = lin_add(val, stop, -1)
+                dconst = lin_const(diff)
+            except Exception:
+                dconst, diff = None, None
+            self.ob('%s:stop-index' % b.name, dconst == 0,
+                    'the index reported in Some(..) is not the absolute position at which the scan stops (difference %s): %s' %
+                    (dconst if dconst is not None else 'not constant', expr_str(self.some_payload, b)[:80]), site_bb)
         # stop verdict at position pos_k
         if clear is False or clear == 'either':
             if outfull and self.out_full_ok:
@@ -1112,7 +1167,7 @@ class Scanner:
                     inner = [hh for hh in loop_heads(b) if x in natural_loop(b, hh)]
                     if min(inner, key=lambda hh: len(natural_loop(b, hh))) == h:
                         self.kernel_heads.add(h)
-        self.inv = {0: entry_inv or {'S': {}, 'd': [0, INF], 'eq': {}}}
+        self.inv = {0: entry_inv or {'S': {}, 'd': [0, INF], 'eq': {}, 'acc': {}}}
         stop = set(self.heads)
         work = [0]
         it = 0
@@ -1258,7 +1313,7 @@ SPECS = {
     'utf_8::utf8_valid_up_to': (Sem('valid UTF-8', 8), 'index', {'delegates': ('utf_8::fast_utf8_valid_up_to',)}, 15),
     'utf_8::convert_utf8_to_utf16_up_to_invalid': (Sem('valid UTF-8', 8), 'index', {'out_full_ok': True, 'ret_field': 0}, 11),
     'mem::utf16_valid_up_to': (Sem('valid UTF-16', 16), 'index', {}, 6),
-    'mem::is_utf8_latin1_impl': (Sem('Latin1 as UTF-8', 8, latin1=True), 'option_some_stops', {}, 4),
+    'mem::is_utf8_latin1_impl': (Sem('Latin1 as UTF-8', 8, latin1=True), 'option_some_stops', {}, 5),
     'mem::is_str_latin1_impl': (Sem('Latin1 in a str', 8, assume_valid=True, latin1=True), 'option_some_stops', {}, 3),
     'mem::is_utf8_bidi': (Sem('valid UTF-8 without right-to-left scalars', 8, nonrtl=True), 'bool_true_stops', {}, 70),
     'mem::is_str_bidi': (Sem('str without right-to-left scalars', 8, assume_valid=True, nonrtl=True), 'bool_true_stops', {}, 39),
